@@ -183,15 +183,18 @@ func vDiodeBigBuf(poller bool) {
 		interval = time.Millisecond
 	}
 	w := NewWriter(sink, 2, interval, nil)
-	capacity := []int{2, 600, 70000}[zzverif.Choice(3)] // around the 64 KiB pooling limit too
-	p := make([]byte, 2, capacity)
+	shape := zzverif.Choice(4)
+	capacity := []int{2, 600, 70000, 70000}[shape] // around the 64 KiB pooling limit too
+	length := []int{2, 2, 2, 66000}[shape]         // ... also for the message itself
+	p := make([]byte, length, capacity)
 	p[0], p[1] = 'o', 'k'
 	n, err := w.Write(p)
-	zzverif.Assert(n == 2 && err == nil, "C10: Write reports the full length")
+	zzverif.Assert(n == length && err == nil, "C10: Write reports the full length")
 	p[0], p[1] = 'X', 'X' // the caller reuses its buffer
 	zzverif.Assert(w.Close() == nil, "C12: Close returns")
+	zzverif.Assert(len(sink.got) == 1, "C11: after Close every message was delivered or reported, whatever its size")
 	zzverif.Assert(len(sink.got) == 1, "C10: the message is delivered exactly once")
-	zzverif.Assert(len(sink.got) == 1 && string(sink.got[0]) == "ok", "C10: the delivered buffer is byte-identical to the argument of Write although the caller reused its buffer afterwards")
+	zzverif.Assert(len(sink.got) == 1 && len(sink.got[0]) == length && string(sink.got[0][:2]) == "ok", "C10: the delivered buffer is byte-identical to the argument of Write although the caller reused its buffer afterwards")
 	zzverif.Reach("diode/bigbuf")
 }
 
